@@ -88,6 +88,8 @@ def run(ctx):
     ctx.guarded(r, r6_interval_choice)
     from .. import x86pw as PW86
 
+    r = ctx.rule("R0", "the choice byte's encoding: Unknown = 0, Both = Left | Right, Left = 1 / Right = 2 as the computed bytes assume, CHOICE_* are the enum's values", 5)
+    ctx.guarded(r, PW86.r_choice_encoding)
     r = ctx.rule("R7v", "x86_64 tracing min / max / and / or record Left / Right exactly on the order types where the interpreter does (a choice decided too eagerly simplifies away an operand that still matters)", 8)
     for kind in AC.TRACING:
         ctx.guarded(r, PW86.check_piecewise, kind, only=PW86.CHOICE_OPS)
